@@ -1,9 +1,8 @@
 (* C12 — property theorems only.  Each is closed by [exact <lemma>]; the lemmas live in Proofs_*.v,
    the model in Model.v / Skeleton.v; Gen/C12.v is regenerated from /repo on every run. *)
 From Coq Require Import Relations.
-From Equations Require Import Equations.
 From Sdns Require Import Common.Base Gen.C12 C12.Model C12.Skeleton
-  C12.Proofs_ledger C12.Proofs_sig C12.Proofs_guard C12.Proofs_run C12.Proofs_skeleton C12.Proofs_reply C12.Proofs_query.
+  C12.Proofs_ledger C12.Proofs_sig C12.Proofs_guard C12.Proofs_run C12.Proofs_skeleton C12.Proofs_reply C12.Proofs_query C12.Proofs_trace.
 Open Scope N_scope.
 
 (* ---- translator ties: the kind sets the two dimension switches range over, the DNSSEC/network
@@ -161,9 +160,55 @@ Theorem skeleton_is_guarded : forall maxdepth qmin v6 Smax Fmax c, guarded (clie
 Proof. exact client_guarded. Qed.
 Print Assumptions skeleton_is_guarded.
 
+(* ---- (iii bis) the skeleton step by step (session 3).
+   budgets_hold_at_every_step: for EVERY guarded program and every adversary, in enforce mode, the
+   sequence of events an outside observer sees — exchanges reaching upstream servers, sub-pipeline runs
+   starting, each with the ledger counters at that moment — passes [steps_ok]: when the k-th exchange
+   arrives the outbound counter is already >= k and <= MaxOutboundQueries, when the k-th sub-run starts the
+   internal counter is already >= k and <= MaxInternalQueries, counters never decrease.  Run.check_case
+   applies the same [steps_ok] to the event sequence recorded from the real resolver. *)
+Theorem budgets_hold_at_every_step : forall A (p : prog A) pol adv, guarded p -> p_mode pol = mode_enforce ->
+  steps_ok true (p_max_out pol) (p_max_int pol) 0 0 0 0 (trace adv p (fresh pol)) = true.
+Proof. exact (@stepwise_budgets_lemma). Qed.
+Print Assumptions budgets_hold_at_every_step.
+
+(* subquery_call_tree: in every run of the client program the sub-pipeline runs nest properly and the
+   context of each (queryer nesting, CNAME-chase depth, DNAME depth, NS-lookup mark, best-effort mark) derives
+   from the context of the run that asked for it by exactly one legitimate step ([child_ok]); at the end
+   every run has returned. *)
+Theorem subquery_call_tree : forall maxdepth qmin v6 Smax Fmax c adv w,
+  tree_run v6 (mk_sl 0 c) [] (trace adv (client maxdepth qmin v6 Smax Fmax c) w) = Some (mk_sl 0 c, []).
+Proof. exact client_call_tree_lemma. Qed.
+Print Assumptions subquery_call_tree.
+
+(* ... and what one legitimate step means for the three depth counters *)
+Theorem call_tree_step_respects_caps : forall v6 par ch, child_ok v6 par ch = true ->
+  (N.of_nat (sl_nest ch) <= max_queryer_recursion) /\
+  (cx_chase (sl_cx ch) = S (cx_chase (sl_cx par)) -> N.of_nat (cx_chase (sl_cx ch)) <= max_cname_chase_depth) /\
+  (cx_dname (sl_cx ch) = S (cx_dname (sl_cx par)) -> N.of_nat (cx_dname (sl_cx ch)) <= max_dname_depth) /\
+  (cx_chase (sl_cx par) <= cx_chase (sl_cx ch) <= S (cx_chase (sl_cx par)))%nat /\
+  (cx_dname (sl_cx par) <= cx_dname (sl_cx ch) <= S (cx_dname (sl_cx par)))%nat.
+Proof. exact child_ok_caps. Qed.
+Print Assumptions call_tree_step_respects_caps.
+
+(* non-vacuity: a run of the client program with nested sub-runs (hit path, chase three levels deep on an
+   internal budget of 3), and one with exchanges only *)
+Example trace_example :
+  let pol := mk_T_RecursionWorkPolicy mode_enforce 128 3 4 8 32 32 32 32 in
+  let tr := trace (fun _ => 1%nat) (client 30 5 false 1 1 cx0) (fresh pol) in
+  let tx := trace (fun j => match j with O => O | _ => 1%nat end) (client 30 5 false 1 1 cx0) (fresh pol) in
+  length (filter (fun e => match e with EvS _ _ _ => true | _ => false end) tr) = 3%nat /\
+  steps_ok true 128 3 0 0 0 0 tr = true /\
+  length (filter (fun e => match e with EvX _ _ => true | _ => false end) tx) = 8%nat /\
+  steps_ok true 128 3 0 0 0 0 tx = true.
+Proof. vm_compute. repeat split. Qed.
+
 (* resolve_terminates: the client program is a total function of the adversary — [resolve] is defined
-   by well-founded recursion on (rs.depth, nomin, servers.Checked, minimisation steps left), everything
-   else structurally on the code's own counters; no fuel anywhere *)
+   by structural recursion on the accessibility proof of the lexicographic order on
+   (rs.depth, nomin, servers.Checked, minimisation steps left), each re-entry carrying the proof that
+   the guard tested by the Go code made the tuple smaller (the ob_ lemmas of Skeleton.v); everything else
+   structurally on the code's own counters; no fuel anywhere, no axiom (session 3: the Equations
+   definition and with it functional_extensionality_dep are gone) *)
 Theorem resolve_terminates : forall maxdepth qmin v6 Smax Fmax adv w,
   exists w' r, run adv (client maxdepth qmin v6 Smax Fmax cx0) w = (w', r).
 Proof. exact resolve_terminates_lemma. Qed.
